@@ -323,6 +323,7 @@ func runC11(run *Run, replay string) {
 		n = 3000
 	}
 	ctx := context.Background()
+	crossFileFocusCases(run)
 	for wi := 0; wi < n; wi++ {
 		r := rand.New(rand.NewSource(subSeed(run.Res.Seed, wi)))
 		np := 1 + r.Intn(3)
@@ -570,6 +571,15 @@ func collectedWorldOracle(run *Run, n int) {
 					if !strings.Contains(firstLine, last.Name) {
 						run.Violate(Violation{Key: "C11/definition-is-not-what-the-address-denotes", Rule: "a reference resolves to exactly the declarations its address denotes",
 							Func: "Decoder.ReferenceTargetsForOriginAtPos", Detail: fmt.Sprintf("%s resolves to %v, which begins %q", lo.Addr.String(), rt.Range, firstLine),
+							Replay: map[string]interface{}{"kind": "collected", "seed": run.Res.Seed, "collected_world": i, "src": string(sc.Src), "origin": lo.Addr.String()}})
+					}
+				}
+				if ix, isIdx := lo.Addr[len(lo.Addr)-1].(lang.IndexStep); isIdx && ix.Key.Type() == cty.Number {
+					// tuple elements are written "x0", "x1", ...: element i is what ...[i] denotes
+					text := string(sc.Src[rt.Range.Start.Byte:rt.Range.End.Byte])
+					if n, _ := ix.Key.AsBigFloat().Int64(); len(text) == 4 && strings.HasPrefix(text, "\"x") && text != fmt.Sprintf("\"x%d\"", n) {
+						run.Violate(Violation{Key: "C11/definition-is-not-what-the-address-denotes", Rule: "a reference resolves to exactly the declarations its address denotes",
+							Func: "Decoder.ReferenceTargetsForOriginAtPos", Detail: fmt.Sprintf("%s resolves to %v, which is %s", lo.Addr.String(), rt.Range, text),
 							Replay: map[string]interface{}{"kind": "collected", "seed": run.Res.Seed, "collected_world": i, "src": string(sc.Src), "origin": lo.Addr.String()}})
 					}
 				}
